@@ -297,6 +297,27 @@ func exhaustive(run *vc.Run) {
 	}
 	run.Count("exhaustive_single_differences", ndiff)
 
+	// B2. a recursive reference must not hash like a finite type: T0 = {p1..pk, r: T0} against
+	// T0 = {p1..pk, r: T1}, T1 = {the members of T0 that sort before r}
+	for k := 0; k <= 3; k++ {
+		for _, rname := range []string{"zz", "b", "a0"} {
+			fs := fieldsN(nameSets[0], k, false)
+			var before []*Field
+			for _, f := range fieldsN(nameSets[0], k, false) {
+				if f.Name < rname {
+					before = append(before, f)
+				}
+			}
+			g := &Graph{UTs: []*UT{{Name: "T0", A: O(append(fs, Fd(rname, Rf(0)))...)}}, Root: Rf(0)}
+			h := &Graph{UTs: []*UT{{Name: "T0", A: O(append(fieldsN(nameSets[0], k, false), Fd(rname, Rf(1)))...)}, {Name: "T1", UID: "u1", A: O(before...)}}, Root: Rf(0)}
+			for _, fl := range allFlags() {
+				doPair(rc, Witness{G: g, H: h, Flags: fl.String(), Class: "recursion-vs-finite-prefix", D: &diff{Class: "recursion-vs-finite-prefix", Where: "UT0." + rname, Below: true}})
+			}
+			rc.Distinct(fmt.Sprintf("recfin/%d/%s", k, rname))
+		}
+	}
+	rc.flush(run)
+
 	// C. determinism probes: one value hashed 200 times
 	probes := []*Graph{
 		{Root: O(Fd("a", tagged(P("string"), "struct:field:name", "A", "struct:field:type", "T", "struct:field:proto", "p")))},
@@ -315,7 +336,7 @@ func exhaustive(run *vc.Run) {
 	// D. copies of every base: equality, determinism, every mutation class through both APIs
 	for bi, base := range bases {
 		for _, api := range []string{"Dup", "DupAtt"} {
-			doDupEqual(rc, Witness{G: base, API: api})
+			doDupEqual(rc, Witness{G: base, API: api, observe: true})
 			for _, mc := range mutationClasses {
 				doDupMutation(rc, Witness{G: base, API: api, Class: mc})
 			}
@@ -358,18 +379,7 @@ func hostile(run *vc.Run) {
 	parallel(run, n, func(i int, rc *rec) {
 		r := run.Rand(1313, uint64(i))
 		g := genGraph(r.Fork(2), genOpt{hostile: true, maxDepth: r.Range(1, 3), nUT: r.Range(0, 2)})
-		dr := r.Fork(4)
-		for _, c := range diffClasses {
-			_, _, total := diffAt(g, c, -1, 0)
-			if total == 0 {
-				continue
-			}
-			h := g.clone()
-			d, _, _ := diffAt(h, c, dr.Intn(total), dr.Intn(4))
-			for _, fl := range allFlags() {
-				doPair(rc, Witness{G: g, H: h, Flags: fl.String(), Expect: expected(d, fl), Class: c, D: &d, Hostile: true})
-			}
-		}
+		differentVariants(rc, g, build(g), r.Fork(4), true)
 		rc.Count("hostile_name_graphs", 1)
 	}, nil)
 }
@@ -441,24 +451,21 @@ func doRisky(rc *rec, w Witness) {
 }
 
 func risky(run *vc.Run) {
-	rc := &rec{}
-	for i, s := range riskyShapes {
-		ops := []string{"dup"}
-		for _, fl := range allFlags() {
-			ops = append(ops, "hash:"+fl.String())
-		}
-		for _, op := range ops {
-			doRisky(rc, Witness{G: s.g, Op: op, Note: s.name})
-		}
-		rc.Distinct(fmt.Sprintf("risky/%d", i))
+	ops := []string{"dup"}
+	for _, fl := range allFlags() {
+		ops = append(ops, "hash:"+fl.String())
 	}
-	rc.flush(run)
+	parallel(run, len(riskyShapes)*len(ops), func(i int, rc *rec) {
+		s := riskyShapes[i/len(ops)]
+		doRisky(rc, Witness{G: s.g, Op: ops[i%len(ops)], Note: s.name})
+		rc.Distinct(fmt.Sprintf("risky/%d", i/len(ops)))
+	}, nil)
 }
 
 // ---------------------------------------------------------------- child modes
 
 func childMain(op string) {
-	debug.SetMaxStack(64 << 20)
+	debug.SetMaxStack(16 << 20)
 	in, err := readAll(os.Stdin)
 	if err != nil {
 		fmt.Fprintln(os.Stderr, "child: ", err)
@@ -555,9 +562,10 @@ var singles = []singleTransform{
 
 // equalVariants: all transforms the documented rules declare irrelevant under
 // fl are applied at once; on a mismatch each is retried alone to name the culprit.
-func equalVariants(rc *rec, g *Graph, r *vc.Rand) {
+func equalVariants(rc *rec, g *Graph, bg *built, r *vc.Rand) {
 	base := g.clone()
-	permute(base, r.Fork(1), true, true)
+	permSeed := r.Uint64()
+	permute(base, vc.NewRand(permSeed), true, true)
 	decorate(base, r.Fork(2), "all")
 	for fi, fl := range allFlags() {
 		h := base.clone()
@@ -566,7 +574,7 @@ func equalVariants(rc *rec, g *Graph, r *vc.Rand) {
 				s.apply(h, r.Fork(uint64(10+fi)))
 			}
 		}
-		w := Witness{Check: "pair", G: g, H: h, Flags: fl.String(), Expect: "equal", Class: "combined"}
+		w := Witness{Check: "pair", G: g, H: h, Flags: fl.String(), Expect: "equal", Class: "combined", bg: bg}
 		st, key, what := evalPair(rc, w)
 		rc.Eval(1)
 		switch st {
@@ -584,7 +592,11 @@ func equalVariants(rc *rec, g *Graph, r *vc.Rand) {
 					continue
 				}
 				h1 := g.clone()
-				if s.apply(h1, r.Fork(uint64(100+10*fi+si))) == 0 {
+				sr := r.Fork(uint64(100 + 10*fi + si))
+				if strings.HasPrefix(s.cls, "permute-") {
+					sr = vc.NewRand(permSeed) // the very permutations of the combined variant
+				}
+				if s.apply(h1, sr) == 0 {
 					continue
 				}
 				if doPair(rc, Witness{G: g, H: h1, Flags: fl.String(), Expect: "equal", Class: s.cls}) == "violated" {
@@ -598,7 +610,7 @@ func equalVariants(rc *rec, g *Graph, r *vc.Rand) {
 	}
 }
 
-func differentVariants(rc *rec, g *Graph, r *vc.Rand, hostile bool) {
+func differentVariants(rc *rec, g *Graph, bg *built, r *vc.Rand, hostile bool) {
 	for ci, c := range diffClasses {
 		_, _, total := diffAt(g, c, -1, 0)
 		if total == 0 {
@@ -610,8 +622,12 @@ func differentVariants(rc *rec, g *Graph, r *vc.Rand, hostile bool) {
 		if !ok {
 			continue
 		}
+		var bh *built
+		if !h.objectFreeCycle() {
+			bh = build(h)
+		}
 		for _, fl := range allFlags() {
-			doPair(rc, Witness{G: g, H: h, Flags: fl.String(), Expect: expected(d, fl), Class: c, D: &d, Hostile: hostile})
+			doPair(rc, Witness{G: g, H: h, Flags: fl.String(), Expect: expected(d, fl), Class: c, D: &d, Hostile: hostile, bg: bg, bh: bh})
 		}
 		rc.Seen("difference_classes_exercised", c)
 	}
@@ -673,10 +689,10 @@ func randomCase(run *vc.Run, i int, rc *rec, hashes *[8]string, stable *[8]bool)
 	for _, fl := range allFlags() {
 		hashes[flagsIndex(fl)], _ = safeHash(b.root.Type, fl)
 	}
-	equalVariants(rc, g, r.Fork(3))
-	differentVariants(rc, g, r.Fork(4), false)
+	equalVariants(rc, g, b, r.Fork(3))
+	differentVariants(rc, g, b, r.Fork(4), false)
 	api := []string{"Dup", "DupAtt"}
-	doDupEqual(rc, Witness{G: g, API: api[i%2]})
+	doDupEqual(rc, Witness{G: g, API: api[i%2], observe: i < 300})
 	for mi, mc := range mutationClasses {
 		doDupMutation(rc, Witness{G: g, API: api[(i+mi)%2], Class: mc})
 	}
@@ -740,7 +756,11 @@ func random(run *vc.Run) (sampleForChildren []*Graph) {
 				ba := build(ga)
 				ha, _ := safeHash(ba.root.Type, fl)
 				if ha == s.h[fi] {
-					rc.Violation("hash-collision rule="+v.Class, fmt.Sprintf("random cases %d and %d differ by rule %s at %s but hash equally under flags %s: %q", j, i, v.Class, v.Where, fl, clip(ha)),
+					key := "hash-collision rule=" + v.Class
+					if hasCycle(ga) || hasCycle(gb) {
+						key = "hash-collision-with-recursive-type rule=" + v.Class
+					}
+					rc.Violation(key, fmt.Sprintf("random cases %d and %d differ by rule %s at %s but hash equally under flags %s: %q", j, i, v.Class, v.Where, fl, clip(ha)),
 						Witness{Check: "pair", G: ga, H: gb, Flags: fl.String(), Class: ""})
 					rc.flush(run)
 				}
@@ -871,6 +891,7 @@ func main() {
 		}
 		t0 = time.Now()
 	}
+	debug.SetGCPercent(400)
 	exhaustive(run)
 	lap("exhaustive")
 	hostile(run)
